@@ -353,6 +353,8 @@ package yqlib
 //@ func (*CandidateNode).GetFilename
 //@   props C10 C11
 //@   requires n != nil
+//@   ensures @root-value implies(n.Parent == nil, result == n.filename)
+//@   ensures @defines-rootFilename {ASSUMED} result == rootFilename(n)
 
 //@ func (*CandidateNode).GetFileIndex
 //@   props C10 C11
@@ -819,10 +821,12 @@ package yqlib
 //@   noframe
 //@   requires p != nil && nodeList(matchingNodes) && p.encoder != nil && p.printerWriter != nil && p.treeNavigator != nil
 //@   ensures @never-resets {C19} implies(old(p.printedMatches), p.printedMatches)
+//@   at GetMatchingNodes: assert @the-whole-result-list-is-exploded {C13} arg1.MatchingNodes == old(matchingNodes) && arg2.Operation.OperationType == explodeOpType
 //@   at PrintLeadingContent: assert @the-encoder-is-told-this-nodes-leading-content {C18} arg2 == mappedDoc.LeadingContent
 //@   at printNode: assert @every-node-is-preceded-by-its-own-leading-content {C18} arg1 == mappedDoc && calls(PrintLeadingContent) == calls(printNode) + 1
 //@   loop 1:
 //@     invariant @leading-content-told-once-per-node {C18} calls(PrintLeadingContent) == calls(printNode)
+//@     invariant @what-is-printed-was-exploded-for-an-encoder-that-cannot-handle-aliases {C13} calls(CanHandleAliases) == 1 && implies(!resultOf(CanHandleAliases), calls(GetMatchingNodes) == 1)
 //@     invariant @nodes nodeList(matchingNodes)
 //@     invariant @never-resets {C19} implies(old(p.printedMatches), p.printedMatches)
 //@     invariant @position (el == nil && iter() == len(matchingNodes)) || (el != nil && elList(el) == matchingNodes && elIdx(el) == iter())
@@ -1678,6 +1682,7 @@ package yqlib
 //@   nopre
 //@   noframe
 //@   ensures @a-node-or-an-error {C11,C10} implies(result1 == nil, result0 != nil)
+//@   at return: assert @the-leading-content-goes-to-one-document-only {C05,C10} implies(result1 == nil && err == nil, dec.leadingContent == "" && dec.readAnything)
 
 
 //@ func createStringScalarNode
@@ -1759,3 +1764,71 @@ package yqlib
 //@   loop 1:
 //@     invariant @all-earlier-positions-were-equal {C15} calls(compare) == iter() && (calls(compare) == 0 || resultOf(compare) == 0)
 //@     invariant @both-cursors-stand-at-the-same-position {C15} (lhsEl == nil || (elList(lhsEl) == lhsContext.MatchingNodes && elIdx(lhsEl) == iter())) && (rhsEl == nil || (elList(rhsEl) == rhsContext.MatchingNodes && elIdx(rhsEl) == iter()))
+
+// operator_file.go, operator_document_index.go: file_index, filename and document_index answer, for any node
+// (not only a document root), with the position of the document the node belongs to (C10)
+//@ func getFileIndexOperator
+//@   props C10
+//@   nosafety
+//@   nopre
+//@   noframe
+//@   overlay
+//@   at CreateReplacement: assert @the-index-of-the-file-the-node-belongs-to {C10} arg0 == candidate && arg1 == ScalarNode && arg2 == "!!int" && arg3 == itoa(rootFileIndex(candidate))
+
+//@ func getDocumentIndexOperator
+//@   props C10
+//@   nosafety
+//@   nopre
+//@   noframe
+//@   overlay
+//@   at CreateReplacement: assert @the-index-of-the-document-the-node-belongs-to {C10} arg0 == candidate && arg1 == ScalarNode && arg2 == "!!int" && arg3 == itoa(rootDocument(candidate))
+
+//@ func getFilenameOperator
+//@   props C10
+//@   nosafety
+//@   nopre
+//@   noframe
+//@   overlay
+//@   at CreateReplacement: assert @the-name-of-the-file-the-node-belongs-to {C10} arg0 == candidate && arg1 == ScalarNode && arg2 == "!!str" && arg3 == rootFilename(candidate)
+
+// encoder_csv.go: what cannot be written as CSV (anything but a scalar or a sequence) is refused, never skipped (C19)
+//@ func (*csvEncoder).Encode
+//@   props C19
+//@   nosafety
+//@   nopre
+//@   noframe
+//@   requires e != nil && node != nil
+//@   ensures @anything-but-a-scalar-or-a-sequence-is-refused {C19} implies(old(node.Kind) != ScalarNode && old(node.Kind) != SequenceNode, result != nil)
+
+// lib.go / operator_contains.go: comparing two maps, and contains() on maps, look each key up among the KEYS of
+// the other map and read the value next to it (C01), never past the end (C11)
+//@ func recurseNodeObjectEqual
+//@   props C11 C01
+//@   nopre
+//@   noframe
+//@   requires lhs != nil && rhs != nil
+//@   assume @well-formed-maps len(lhs.Content) % 2 == 0 && len(rhs.Content) % 2 == 0 && forall(i, 0, len(lhs.Content), lhs.Content[i] != nil) && forall(i, 0, len(rhs.Content), rhs.Content[i] != nil)
+//@   at findKeyInMap: assert @a-key-is-looked-up-among-the-keys {C01} arg0 == rhs && arg1 == lhs.Content[index]
+//@   at recursiveNodeEqual: assert @the-values-of-the-same-key-are-compared {C01} arg0 == lhs.Content[index+1] && arg1 == rhs.Content[resultOf(findKeyInMap)+1]
+//@   loop 1:
+//@     invariant 0 <= index && index % 2 == 0
+
+//@ func containsObject
+//@   props C11 C01
+//@   nopre
+//@   noframe
+//@   requires lhs != nil && rhs != nil
+//@   assume @well-formed-maps len(lhs.Content) % 2 == 0 && len(rhs.Content) % 2 == 0 && forall(i, 0, len(lhs.Content), lhs.Content[i] != nil) && forall(i, 0, len(rhs.Content), rhs.Content[i] != nil)
+//@   at findKeyInMap: assert @a-key-is-looked-up-among-the-keys {C01} arg0 == lhs && arg1 == rhs.Content[index]
+//@   at contains: assert @the-values-of-the-same-key-are-compared {C01} arg0 == lhs.Content[resultOf(findKeyInMap)+1] && arg1 == rhs.Content[index+1]
+//@   loop 1:
+//@     invariant 0 <= index && index % 2 == 0
+
+// comparisons read their operands and write nothing (assumed: the bodies recurse through each other)
+//@ func recursiveNodeEqual
+//@   trusted
+//@   modifies \nothing
+
+//@ func contains
+//@   trusted
+//@   modifies \nothing
